@@ -248,7 +248,35 @@ func rmHist(args []string) error {
 				}
 			}(ci, seed)
 		}
+		// every fourth window: checkpoints (BeginCheckpoint blocks new transactions, waits for the running ones, forces
+		// the log and writes every dirty page; EndCheckpoint lets them go on) fired from another goroutine all the time
+		ckptStop := make(chan struct{})
+		ckptDone := make(chan int, 1)
+		if w%4 == 3 {
+			go func() {
+				n := 0
+				for {
+					select {
+					case <-ckptStop:
+						ckptDone <- n
+						return
+					default:
+					}
+					e.DB.ForceCheckpointingForTestcase()
+					n++
+					time.Sleep(time.Millisecond)
+				}
+			}()
+		} else {
+			ckptDone <- 0
+		}
 		wg.Wait()
+		close(ckptStop)
+		select {
+		case <-ckptDone:
+		case <-time.After(60 * time.Second):
+			atomic.StoreInt32(&stuck, 1) // a checkpoint that never ends blocks every later call
+		}
 		access.VerifTxnEnd = nil
 		// final read closes the history
 		fin := &callRec{c: 99999999, k: "read", a: 0, b: 1000000}
@@ -438,7 +466,30 @@ func rmIO(args []string) error {
 				}
 			}(g, seed)
 		}
+		// every second window: checkpoints fired all the time from another goroutine (their page writes and log forces
+		// are judged by the same write-ahead rules)
+		ckptStop := make(chan struct{})
+		ckptDone := make(chan struct{})
+		go func() {
+			defer close(ckptDone)
+			for w%2 == 1 {
+				select {
+				case <-ckptStop:
+					return
+				default:
+				}
+				e.DB.ForceCheckpointingForTestcase()
+				time.Sleep(2 * time.Millisecond)
+			}
+		}()
 		wg.Wait()
+		close(ckptStop)
+		select {
+		case <-ckptDone:
+		case <-time.After(60 * time.Second):
+			atomic.StoreInt32(&stop, 1)
+			iotw.Emit(map[string]interface{}{"ev": "End", "stuck": "checkpoint"})
+		}
 		access.VerifTxnEnd = nil
 		if atomic.LoadInt32(&stop) != 0 {
 			iotw.Close()
